@@ -457,7 +457,7 @@ def run(ctx):
     corpus = []
     for label, b, kw in handshake_corpus(R):
         corpus.append((label, b, kw))
-    nvals = ctx.scale(12, 60)
+    nvals = ctx.scale(12, 200)
     while len(corpus) < 6 + nvals:
         v = base.gen_value(R, rng) if rng.random() < 0.8 else base.gen_deep(R, rng, rng.randint(2, 6))
         try:
@@ -474,7 +474,7 @@ def run(ctx):
             inputs.append((label + "-" + kind, m, kw))
     # random byte strings (biased towards plausible headers)
     ids = [1, 3, 4, 5, 6, 8, 9, 10, 11, 12, 13, 14, 15, 16, 17, 18] + [t for t in R.S.SerializableType.registry if t < 65536]
-    for _ in range(ctx.scale(1500, 40000)):
+    for _ in range(ctx.scale(1500, 150000)):
         n = rng.choice([0, 1, 2, 3, 4, 6, 8, 12, 20, 40, 100])
         if rng.random() < 0.5:
             data = bytes(rng.getrandbits(8) for _ in range(n))
